@@ -1,0 +1,1 @@
+//! Verification facade (cfg-gated): small family.  See `crate::verif`.
